@@ -121,19 +121,21 @@ def r19_3(ctx: Ctx) -> None:
     offs = [c for c in calls(helper) if last_attr(c) == "offset" and txt(c.func.value) == "new"]  # type: ignore
     if not offs:
         raise AnalysisError("add_area_from_feature: shift of post-origin areas not found")
+    from ..flow import inline_reaching, path_facts
+    hcfg = CFG(helper)
     for call in offs:
-        gs = [(t, pol) for t, pol in guards(call, stop=helper)]
         conj: List[ast.AST] = []
-        for t, pol in gs:
-            if pol:
-                conj += list(t.values) if isinstance(t, ast.BoolOp) and isinstance(t.op, ast.And) else [t]
+        for expr, truth in path_facts(hcfg, call):
+            conj.append(expr if truth else ast.UnaryOp(op=ast.Not(), operand=expr))
         texts = [txt(c) for c in conj]
         ctx.ob("R19.3", AP, call, "build_area_rows.add_area_from_feature", "shift amount", txt(call.args[0]) == "record_length",
                "positions after the origin are shifted by the record length", form=txt(call))
         ctx.ob("R19.3", AP, call, "build_area_rows.add_area_from_feature", "only for origin-spanning regions",
                "region.crosses_origin()" in texts and "extend_over_origin" in texts,
                "the shift applies only when the record is circular and the region spans the origin", form=" and ".join(texts))
-        placement = [c for c in conj if txt(c) not in ("region.crosses_origin()", "extend_over_origin")]
+        # the arm for areas that themselves span the origin is handled separately (its negation holds here)
+        placement = [c for c in conj if txt(c) not in ("region.crosses_origin()", "extend_over_origin")
+                     and "feature.crosses_origin()" not in txt(c)]
         ok = False
         form = " and ".join(txt(p) for p in placement)
         if len(placement) == 1 and isinstance(placement[0], ast.Call) and last_attr(placement[0]) == "is_contained_by":
@@ -161,9 +163,57 @@ def r19_3(ctx: Ctx) -> None:
            "origin handling is enabled for circular records when the region spans the origin or covers the whole record", form=str(vals))
     adj = [c for c in calls(helper) if call_name(c) == "adjust_cross_origin_area"]
     ok = len(adj) == 1 and [txt(a) for a in adj[0].args] == ["new", "feature", "region.crosses_origin()", "record_length"] and \
-        any(pol and "feature.crosses_origin()" in txt(t) for t, pol in guards(adj[0], stop=helper))
+        any(truth and "feature.crosses_origin()" in txt(expr) for expr, truth in path_facts(hcfg, adj[0]))
     ctx.ob("R19.3", AP, adj[0] if adj else helper, "build_area_rows.add_area_from_feature", "spanning areas adjusted", ok,
            "an area that itself spans the origin goes through the dedicated adjustment with the record length", form="")
+
+
+REGION = "antismash/common/secmet/features/region/structures.py"
+
+
+def r19_4(ctx: Ctx) -> None:
+    """ the protoclusters of a spanning region are ordered by a key that moves post-origin members past the record
+        length: the coordinate that is tested for 'post-origin' is the coordinate that is shifted and sorted on """
+    from ..flow import path_facts
+    from ..index import dotted
+    qual = "Region.get_unique_protoclusters"
+    func = ctx.fn(REGION, qual)
+    keys = [kwarg(c, "key") for c in calls(func) if call_name(c) == "sorted" and kwarg(c, "key") is not None]
+    nested = {n.name: n for n in ast.walk(func) if isinstance(n, ast.FunctionDef) and n is not func}
+    count = 0
+    for key in keys:
+        target = nested.get(txt(key)) if isinstance(key, ast.Name) else None
+        if target is None:
+            ctx.cannot("R19.4", REGION, key, qual, "sort key", f"sort key `{txt(key)[:60]}` is not a local function")
+            continue
+        param = target.args.args[0].arg
+        cfg = CFG(target)
+        for ret in [n for n in walk_local(target) if isinstance(n, ast.Return) and n.value is not None]:
+            first = ret.value.elts[0] if isinstance(ret.value, ast.Tuple) and ret.value.elts else ret.value
+            if not (isinstance(first, ast.BinOp) and isinstance(first.op, ast.Add)):
+                continue
+            sides = [first.left, first.right]
+            mine = [x for x in sides if dotted(x) and dotted(x).split(".")[0] == param]
+            if len(mine) != 1:
+                continue
+            count += 1
+            accessor = dotted(mine[0])
+            tested = set()
+            for expr, truth in path_facts(cfg, ret):
+                for sub in ast.walk(expr):
+                    if isinstance(sub, ast.Compare):
+                        for side in [sub.left] + list(sub.comparators):
+                            d = dotted(side)
+                            if d and d.split(".")[0] == param:
+                                tested.add(d)
+            ctx.ob("R19.4", REGION, ret, f"{qual}.{target.name}", f"shifted coordinate {accessor}", tested == {accessor},
+                   "a member of a spanning region is moved past the record length exactly when the coordinate it is sorted by "
+                   "lies after the origin: the coordinate tested is the coordinate shifted (testing another one mis-places "
+                   "members that straddle the threshold, and the drawing order no longer equals the genome order)",
+                   detail="" if tested == {accessor} else f"tests {sorted(tested)} but shifts {accessor}",
+                   form=f"return {txt(ret.value)[:80]} under tests on {sorted(tested)}")
+    if count < 1:
+        raise AnalysisError(f"{qual}: the shifting sort key for spanning regions was not found")
 
 
 def run(ctx: Ctx) -> None:
@@ -173,3 +223,5 @@ def run(ctx: Ctx) -> None:
     r19_1(ctx)
     r19_2(ctx)
     r19_3(ctx)
+    ctx.rule("R19.4", "spanning-region sort key tests the coordinate it shifts", floor=1)
+    r19_4(ctx)
